@@ -34,6 +34,7 @@ def _jobs_store_family(oracles, family_untimed, family_timed, tier, stores_untim
             jobs.append(m1(s, family_timed, 2, 1, oracles, 12, R2=1, USE=False))
             if s.startswith("BUF"):
                 jobs.append(m1(s, family_timed, 3, 1, oracles, 12, R2=1, USE=False, TR=False))
+                jobs.append(m1(s, family_timed, 3, 0, oracles, 12, R2=2, USE=True, TR=False, name=f"M1/{s}/{family_timed}/N3K0-use"))
         else:
             jobs.append(m1(s, family_timed, 2, 2, oracles, 75, R2=1, USE=True))
             jobs.append(m1(s, family_timed, 3, 1, oracles, 75, R2=1, USE=True, TR=False))
@@ -90,7 +91,7 @@ PROPS["C04"] = {
                    "stores) no space request is pending while ledger occupancy + granted-unused space reservations < capacity, and no retrieval request is "
                    "pending while an available, unbound item exists (availability from the harness's own put time + delay).",
     "jobs": lambda tier: _jobs_store_family(("C04",), "both", "both", tier) + [
-        m1(s, "arrivals", 2 if tier == "quick" else 3, 1 if tier == "quick" else 2, ("C04",), 10 if tier == "quick" else 60)
+        m1(s, "arrivals", 2 if tier == "quick" else 3, (0 if s == "FLEET" else 1) if tier == "quick" else 2, ("C04",), 12 if tier == "quick" else 60)
         for s in ("RPRS", "RPRFS", "BUF_FIFO", "BUF_LIFO", "RPRFS_TD", "FLEET")],
     "required_witnesses": ["C04:pending-put-checked", "C04:pending-get-checked"],
     "nontrivial_witnesses": ["complete"],
@@ -244,6 +245,8 @@ def fan_cfgs(tier):
     C["line-fleet-out"] = dict(n_src=1, n_out=1, n_items=2, w=1, out_kind="fleet", out_cap=2, sym=("pd",), conv_kw=dict(fdelay=1, transit=0.5), until=14)
     C["line-cconv-in"] = dict(n_src=1, n_out=1, n_items=3, w=1, in_kind="cconv", in_cap=3, sym=("iat", "pd"), out_delay=0)
     C["line-cconv-out"] = dict(n_src=1, n_out=1, n_items=3, w=2, out_kind="cconv", out_cap=3, sym=("iat", "pd"))
+    C["fanin-fa-fleet"] = dict(n_src=2, n_out=1, n_items=2, w=1, in_kind="fleet", in_cap=2, sym=("iat",), same_iat=True, out_delay=0,
+                               conv_kw=dict(fdelay=1, transit=0.5), until=12)
     C["fanin-fa"] = dict(n_src=2, n_out=1, n_items=2, w=1)
     C["fanin-fa-w2-tie"] = dict(n_src=2, n_out=1, n_items=2, w=2, same_iat=True, per_item_pd=True)
     C["fanout-fa"] = dict(n_src=1, n_out=2, n_items=n3, w=1, out_cap=1)
